@@ -1,6 +1,18 @@
 #!/usr/bin/env python3
 """Regenerate /verif/MANIFEST.json from props/*.json (claimed) and tools/not_applicable.json."""
-import json, glob, os
+import json, subprocess, glob, os
+
+def hook_commits():
+    # every commit of /repo whose message starts with 'verif hook:' (comment-only contract files, build tag verif)
+    try:
+        out = subprocess.check_output(['git','-C','/repo','log','--format=%H %s'], text=True)
+        hs = [l.split()[0] for l in out.splitlines() if l.split(' ',1)[1].startswith('verif hook:')]
+        if hs:
+            json.dump(hs, open('/verif/tools/hook_commits.json','w'))
+            return hs
+    except Exception:
+        pass
+    return json.load(open('/verif/tools/hook_commits.json'))
 props = [json.loads(l) for l in open('/verif/properties.jsonl')]
 ids = [p['id'] for p in props]
 na = json.load(open('/verif/tools/not_applicable.json'))
@@ -27,7 +39,7 @@ m = {
  "setup_cmd": "cd /verif/engine && GOFLAGS=-mod=mod GOPROXY=off GOSUMDB=off GOTOOLCHAIN=local go build -o /verif/bin/govc .",
  "hooks": {"guard": "verif", "enable": "go/packages load with -tags verif (comment-only contracts_verif.go files; no executable hooks)",
            "baseline_off_cmd": "cd /repo/lib && GOFLAGS=-mod=mod GOPROXY=off GOSUMDB=off go test -vet=off -count=1 -timeout 25m ./...",
-           "source_commits": json.load(open('/verif/tools/hook_commits.json')), "add_only": True},
+           "source_commits": hook_commits(), "add_only": True},
  "engines": [{"name": "govc", "path": "/verif/engine", "serves_properties": sorted(claimed),
               "kind_free_text": "VC generator over go/ssa (x/tools v0.29.0) for Gobra-style //@ contracts kept in comment-only contracts_verif.go files in /repo (build tag verif); obligations discharged by z3 4.8.12 / z3 5.1.0 / cvc5 1.0.3"}],
  "checks": checks,
